@@ -262,7 +262,7 @@ func checkC14() fw.Check {
 	return fw.Check{
 		Prop:  "C14",
 		Level: "exploration",
-		Rule: "built-in race detector (GORACE halt_on_error=0, log_path) over real goroutines on the real clock: (a) every parallel-capable variant (icmp4/6, udp4/6, sackR/S) on an UNSYNCHRONISED pre-seeded wire whose Sink and Source share no lock/atomic/channel, with replies for every TTL circulating continuously so each is read both before its probe is recorded (early/stale/spoofed) and after; (b) K concurrent runs of mixed protocols over the ordinary simulated wire (allocators, echo ids, math/rand); (c) whole RunTraceroute requests with reverse-DNS fan-out, public-IP fetch and some participants failing at the same time; each workload repeated R times; reports are de-duplicated by the pair of first repository frames; a report without repository frames makes the run inconclusive (harness race). " +
+		Rule: "built-in race detector (GORACE halt_on_error=0, log_path) over real goroutines on the real clock: (a) every parallel-capable variant (icmp4/6, udp4/6, sackR/S) on an UNSYNCHRONISED pre-seeded wire whose Sink and Source share no lock/atomic/channel, with replies for every TTL circulating continuously so each is read both before its probe is recorded (early/stale/spoofed) and after; (b) K concurrent runs of mixed protocols over the ordinary simulated wire (allocators, echo ids, math/rand); (d) allocator bursts: 16 goroutines released at once draw IP-id blocks and echo ids, all blocks of one burst (< 65536 identifiers) must be disjoint (lost updates of a non-atomic read-modify-write are invisible to the race detector); (c) whole RunTraceroute requests with reverse-DNS fan-out, public-IP fetch and some participants failing at the same time; each workload repeated R times; reports are de-duplicated by the pair of first repository frames; a report without repository frames makes the run inconclusive (harness race). " +
 			"distinct_nontrivial counts (variant, had-early-reads, had-late-reads) and workload signatures observed; a variant without both early and late reads is inconclusive",
 		Workers:       1,
 		MinNontrivial: 12,
@@ -304,6 +304,7 @@ func checkC14() fw.Check {
 				}})
 			}
 			cases = append(cases, fw.Case{ID: "C14/rdns-fanout", Run: func(c *fw.Ctx) { runC14RdnsFanout(c, reps) }})
+			cases = append(cases, fw.Case{ID: "C14/alloc-bursts", Run: func(c *fw.Ctx) { runC14AllocBursts(c, reps) }})
 			for i := 0; i < reps/2+1; i++ {
 				i := i
 				cases = append(cases, fw.Case{ID: fmt.Sprintf("C14/concurrent/%d", i), Run: func(c *fw.Ctx) { runC14Concurrent(c, i) }})
@@ -395,6 +396,76 @@ func runC14Concurrent(c *fw.Ctx, i int) {
 
 // runC14RdnsFanout: the reverse-DNS fan-out with many addresses and instant answers (first from the resolver, then
 // from the cache): lookups complete while the spawning loop is still iterating.
+// runC14AllocBursts: the process-wide allocators under maximal contention. Each burst releases 16 goroutines at
+// once; every identifier block handed out inside one burst (fewer than 65536 identifiers in total, so a 16-bit
+// allocator has no reason to reuse one) must be disjoint from every other. A read-modify-write that is "atomic"
+// per access but not as a whole (Load then Store) is silent for the race detector and shows up here as two callers
+// holding the same block.
+func runC14AllocBursts(c *fw.Ctx, reps int) {
+	allocMu.Lock()
+	defer allocMu.Unlock()
+	const G = 16
+	const per = 150
+	const width = 20 // 16*150*20 = 48000 identifiers per burst
+	for b := 0; b < reps*2; b++ {
+		starts := make([][]uint16, G)
+		echo := make([][]uint16, G)
+		gate := make(chan struct{})
+		var wg sync.WaitGroup
+		for g := 0; g < G; g++ {
+			wg.Add(1)
+			go func(g int) {
+				defer wg.Done()
+				<-gate
+				for i := 0; i < per; i++ {
+					starts[g] = append(starts[g], packets.AllocPacketID(width))
+					echo[g] = append(echo[g], icmp.VerifNextEchoID())
+				}
+			}(g)
+		}
+		close(gate)
+		wg.Wait()
+		var all []int
+		owner := map[uint16]int{}
+		dup := false
+		for g := range starts {
+			for _, s := range starts[g] {
+				if o, ok := owner[s]; ok && !dup {
+					dup = true
+					c.Violate("C14", "alloc-lost-update/ip-id", fmt.Sprintf("burst %d: AllocPacketID handed the block starting at %d to callers %d and %d at the same time", b, s, o, g), nil)
+				}
+				owner[s] = g
+				all = append(all, int(s))
+			}
+		}
+		if !dup {
+			// distinct starts: blocks must also not overlap (gap between neighbours on the 16-bit circle >= width)
+			sort.Ints(all)
+			for i := range all {
+				nxt := all[(i+1)%len(all)]
+				gap := (nxt - all[i] + 65536) % 65536
+				if gap < width {
+					c.Violate("C14", "alloc-lost-update/ip-id", fmt.Sprintf("burst %d: blocks starting at %d and %d (width %d) overlap", b, all[i], nxt, width), nil)
+					break
+				}
+			}
+		}
+		eo := map[uint16]int{}
+		for g := range echo {
+			for _, e := range echo[g] {
+				if o, ok := eo[e]; ok {
+					c.Violate("C14", "alloc-lost-update/echo-id", fmt.Sprintf("burst %d: echo id %d handed to callers %d and %d at the same time", b, e, o, g), nil)
+					goto next
+				}
+				eo[e] = g
+			}
+		}
+	next:
+		c.Count("alloc_burst_allocations", 2*G*per)
+	}
+	c.Nontrivial("alloc-bursts")
+}
+
 func runC14RdnsFanout(c *fw.Ctx, reps int) {
 	resetProcessState()
 	rs := installResolver(func(addr string) ([]string, error, time.Duration) { return namesFor(addr), nil, 0 })
